@@ -97,6 +97,11 @@ fn sort_char(a: char, b: char) -> Ordering {
     }
 }
 
+#[cfg(feature = "verif")]
+pub(crate) fn verif_sort_char(a: char, b: char) -> Ordering {
+    sort_char(a, b)
+}
+
 fn sort_identifiers(a: &str, b: &str) -> Ordering {
     let mut b_chars = b.chars();
 
